@@ -506,9 +506,14 @@ fn c01_eval(_sc: &str, case: &AnyCase, st: &mut RunStats, _t: Tier) -> Vec<Viola
 // ================================================================ C02
 
 fn c02_scen(t: Tier) -> Vec<(&'static str, u64)> {
-    vec![("progressive", t.pick(400_000, 8_000_000)), ("fragmented", t.pick(300_000, 6_000_000))]
+    vec![("progressive", t.pick(400_000, 8_000_000)), ("fragmented", t.pick(300_000, 6_000_000)), ("after-failed-finish", t.pick(100_000, 2_000_000))]
 }
-fn c02_gen(sc: &str, rng: &mut Rng, t: Tier, _i: u64) -> AnyCase {
+fn c02_gen(sc: &str, rng: &mut Rng, t: Tier, i: u64) -> AnyCase {
+    if sc == "after-failed-finish" {
+        // a finish that fails in the sink, then further finish attempts: whatever the sink holds once a finish has
+        // reported success is "a byte stream the library emitted" and must be a well-formed file
+        return c06_gen("failing-sink", rng, t, i);
+    }
     if sc == "fragmented" {
         AnyCase::Frag(gen::gen_frag(rng, &FragKnobs { reject_pct: 5, boundary: false, big: true, long_pct: 3 }))
     } else {
@@ -524,6 +529,20 @@ fn c02_eval(sc: &str, case: &AnyCase, st: &mut RunStats, _t: Tier) -> Vec<Violat
     let case = as_prog(case);
     let (ex, _lm) = run_and_model(case, st);
     let mut out = oracle::panics("C02", case, &ex);
+    if sc == "after-failed-finish" {
+        // some finish attempt failed; if a later one reported success the sink must hold exactly one well-formed file
+        let ok_finish = case.ops.iter().enumerate().any(|(i, o)| matches!(o, Op::Finish(_)) && ex.ops.get(i).map(|r| r.res.is_ok()).unwrap_or(false));
+        let failed_before = ex.sink.fatal_fault_seen();
+        if ok_finish && failed_before && out.is_empty() {
+            for mut x in oracle::c02_structure("C02", case, &ex.sink.bytes) {
+                x.key = format!("after-failed-finish:{}", x.key);
+                x.detail = format!("a finish attempt failed in the sink, a later one reported success, and the sink now holds {} bytes: {}", ex.sink.bytes.len(), x.detail);
+                out.push(x);
+            }
+            st.nontrivial = Some(abstract_prog(case, &ex, st));
+        }
+        return out;
+    }
     if let Some((_, bytes)) = oracle::complete_file(case, &ex) {
         out.extend(oracle::c02_structure("C02", case, bytes));
         st.nontrivial = Some(abstract_prog(case, &ex, st));
@@ -534,9 +553,14 @@ fn c02_eval(sc: &str, case: &AnyCase, st: &mut RunStats, _t: Tier) -> Vec<Violat
 // ================================================================ C03
 
 fn c03_scen(t: Tier) -> Vec<(&'static str, u64)> {
-    vec![("timing", t.pick(500_000, 12_000_000)), ("long-runs", t.pick(1_200, 12_000))]
+    vec![("timing", t.pick(500_000, 12_000_000)), ("long-runs", t.pick(1_200, 12_000)), ("boundary", t.pick(60_000, 1_000_000))]
 }
 fn c03_gen(sc: &str, rng: &mut Rng, t: Tier, _i: u64) -> AnyCase {
+    if sc == "boundary" {
+        // gaps and totals around 2^32 ticks, one track much longer than the other: the declared media duration
+        // must still be the sum of the sample durations (or the call that made it unrepresentable was refused)
+        return AnyCase::Prog(gen::gen_boundary(rng));
+    }
     let mut k = knobs_functional(t);
     k.meta_pct = 10;
     k.bframes_pct = 45;
@@ -929,6 +953,11 @@ fn c15_eval(_sc: &str, case: &AnyCase, st: &mut RunStats, _t: Tier) -> Vec<Viola
     let (ex, lm) = run_and_model(case, st);
     let mut out = oracle::panics("C15", case, &ex);
     if let Some((_, bytes)) = oracle::complete_file(case, &ex) {
+        // "stored in the media data": the order the tables describe must be where the bytes really are
+        for mut x in oracle::c01_addressing("C15", case, &ex, &lm, bytes) {
+            x.class = x.class.replace("C15/", "C15/addressing-");
+            out.push(x);
+        }
         if let Ok(p) = oracle::parse_file(bytes) {
             out.extend(oracle::c15_interleave("C15", &lm, &p.movie));
             if !lm.audio.is_empty() && lm.video.len() >= 2 {
